@@ -187,9 +187,20 @@ func TestVerifC20Ready(t *testing.T) {
 	if out.Wants("c20ready-http") {
 		srv := NewServer(NewContext(log.New(io.Discard, "", 0), nil, nil))
 		cfg := config.Config{}
-		cfg.Debug.Address = "127.0.0.1:0"
+		cfg.Debug.Address = c20FreeAddr()
 		var ht *httpTask
-		for _, task := range srv.BuildTasks(cfg, http.NotFoundHandler()) {
+		entered := make(chan struct{}, 1)
+		release := make(chan struct{})
+		slow := http.HandlerFunc(func(w http.ResponseWriter, r *http.Request) {
+			// a request that is still being handled when the server is told to stop (a long pprof trace, a
+			// stalled scraper): it must not keep the task -- and with it Serve -- from returning
+			select {
+			case entered <- struct{}{}:
+			default:
+			}
+			<-release
+		})
+		for _, task := range srv.BuildTasks(cfg, slow) {
 			if x, ok := task.(*httpTask); ok {
 				ht = x
 			}
@@ -214,6 +225,25 @@ func TestVerifC20Ready(t *testing.T) {
 				becameReady = true
 			case <-time.After(5 * time.Second):
 			}
+			inFlight := false
+			if becameReady {
+				// the task listens on an ephemeral port we cannot learn from outside: find it through the process's
+				// own listening sockets is overkill -- listen on a fixed free port instead when this one is unknown
+				if addr := c20ListenAddr(); addr != "" {
+					go func() {
+						resp, err := http.Get("http://" + addr + "/slow")
+						if err == nil {
+							resp.Body.Close()
+						}
+					}()
+					select {
+					case <-entered:
+						inFlight = true
+					case <-time.After(3 * time.Second):
+					}
+				}
+			}
+			obs["request_in_flight_at_cancel"] = inFlight
 			cancel()
 			var err error
 			returned := false
@@ -222,7 +252,8 @@ func TestVerifC20Ready(t *testing.T) {
 				returned = true
 			case <-time.After(5 * time.Second):
 			}
-			obs = map[string]any{"ready_before_run": readyBefore, "became_ready": becameReady, "returned": returned, "error": fmt.Sprint(err)}
+			close(release)
+			obs["ready_before_run"], obs["became_ready"], obs["returned"], obs["error"] = readyBefore, becameReady, returned, fmt.Sprint(err)
 			switch {
 			case readyBefore:
 				viol = "the debug HTTP task reports ready before it listens"
@@ -274,3 +305,19 @@ func TestVerifC20Ready(t *testing.T) {
 		out.Emit(verifh.Case{ID: id, Input: map[string]any{"scenario": "watcher", "watch_error": fmt.Sprint(werr)}, Observed: fmt.Sprint(err), Tags: []string{"ready:watcher"}, ImplViolation: viol})
 	}
 }
+
+var c20Addr string
+
+// c20FreeAddr reserves a free loopback TCP port (listen, read the port, close) for the debug server.
+func c20FreeAddr() string {
+	l, err := net.Listen("tcp", "127.0.0.1:0")
+	if err != nil {
+		c20Addr = ""
+		return "127.0.0.1:0"
+	}
+	c20Addr = l.Addr().String()
+	l.Close()
+	return c20Addr
+}
+
+func c20ListenAddr() string { return c20Addr }
